@@ -2,9 +2,9 @@
    ExtrOcamlBasic only: bool, option, unit, list, prod, sumbool map to OCaml's own
    types; N / positive / nat / Z stay the extracted inductives.  No Extract Constant. *)
 From Coq Require Import ExtrOcamlBasic.
-From PV Require Import Hostlist.HLDefs Hostlist.HLPrint Hostlist.HLEdit Hostlist.HLRangedFit.
+From PV Require Import Hostlist.HLDefs Hostlist.HLPrint Hostlist.HLEdit Hostlist.HLRangedFit Hostlist.HLRangedRoundtrip.
 Extraction Language OCaml.
 Set Extraction KeepSingleton.
 Extraction "hl_model.ml" targets targets1 create expand iter_all shift_all push hl_empty
-  ranged_string deranged_string cstring ranged_text gtexts
+  ranged_string deranged_string cstring ranged_text gtexts printableb
   st_empty step st_names st_count.
